@@ -1,7 +1,7 @@
 #!/bin/bash
 # run_all.sh <tier> <seed> [PIDs...] : run checks sequentially, summarise
 tier=$1; seed=$2; shift 2
-cd /verif
+cd "$(dirname "$0")/.."
 pids=${@:-$(ls harness/props/c*.py | sed 's/.*\/c\([0-9]*\)\.py/C\1/')}
 for p in $pids; do
   VERIF_SEED=$seed VERIF_NO_EVIDENCE=${NOEV:-1} timeout 7200 ./check $p --tier $tier 2>&1 | grep -E "VIOLATION|tier=" | cut -c1-200
